@@ -32,7 +32,9 @@ def build(rng, pos, defined, order, where, nother):
         body_str = rng.choice(["%rax", "rax", "0x10", "%r8"])
     if pos == "deref_value":
         body_str = rng.choice(["%rax", "rbp", "0x8"])
-    target = {"name": ref if defined != "no_at_name" else ref[1:], "pattern": body_str}
+    if defined == "no_at_name":
+        ref = ref[1:] + "_m"          # the definition AND its uses carry the bare name: only the name check can object
+    target = {"name": ref, "pattern": body_str}
     if rng.random() < 0.3 and pos not in ("key_times", "key_operands", "deref_value"):
         target["pattern"] = [body_str]
     user = None
